@@ -1562,10 +1562,11 @@ def oracle(ctx, broken, hints):
     cases += [("corpus", c[1], c[2] if len(c) > 2 else []) for c in core.load_corpus(PROP) if c and c[0] == "recipe"]
     cases += _fixed_cases(ctx)
     if broken:
-        cases += gen_cases(ctx, "property", ctx.budget(20, 100), ctx.budget(15, 120), ctx.budget(20, 30),
-                           ctx.budget(20, 30), exhaustive_bases=ctx.budget(1, 3),
-                           n_multiref=ctx.budget(80, 400), n_multi=ctx.budget(40, 200),
-                           n_sweep=ctx.budget(10, 40), sweep_size=ctx.budget(30, 40))
+        # (quick budgets are tripled by the harness when an anchored source differs from the baseline)
+        cases += gen_cases(ctx, "property", ctx.budget(10, 100), ctx.budget(8, 120), ctx.budget(20, 30),
+                           ctx.budget(20, 30), exhaustive_bases=ctx.budget(0, 3),
+                           n_multiref=ctx.budget(40, 400), n_multi=ctx.budget(20, 200),
+                           n_sweep=ctx.budget(5, 40), sweep_size=ctx.budget(30, 40))
     else:
         cases += gen_cases(ctx, "property", ctx.budget(6, 30), ctx.budget(6, 16), ctx.budget(8, 25),
                            ctx.budget(8, 30), exhaustive_bases=ctx.budget(0, 1), exhaustive_pairs=300,
